@@ -349,6 +349,8 @@ fn directed_pairs() -> Vec<(TVal, TVal, bool)> {
         let mut rng = Rng::new(et as u64);
         let mut g = Gen::new(&mut rng, GenCfg { big_strings: false, ..Default::default() });
         for n in [0usize, 1, 15, 10_000] {
+            // (under the Miri interpreter the large containers are 40 elements: same case list, bounded time)
+            let n = if cfg!(miri) && n == 10_000 { 40 } else { n };
             let n = if et == TT::Binary && n == 10_000 { 2_000 } else { n };
             let xs: Vec<TVal> = (0..n).map(|_| g.gen_scalar(et)).collect();
             v.push((TVal::List(et, xs.clone()), y.clone(), false));
@@ -363,6 +365,7 @@ fn directed_pairs() -> Vec<(TVal, TVal, bool)> {
     };
     for (k, vt) in [(TT::I32, TT::I64), (TT::I8, TT::Binary), (TT::Binary, TT::Double), (TT::Binary, TT::Binary), (TT::I16, TT::Struct), (TT::Struct, TT::I16), (TT::Uuid, TT::List), (TT::I64, TT::Map), (TT::Bool, TT::Bool), (TT::Double, TT::Uuid), (TT::Set, TT::Set)] {
         for n in [0usize, 1, 3, 200] {
+            let n = if cfg!(miri) && n == 200 { 6 } else { n };
             v.push((mk(k, vt, n), y.clone(), false));
         }
     }
